@@ -956,6 +956,12 @@ def extract_fields(obj: model.CanContainImportsDocumentable) -> None:
                                'docstring', field.lineno)
                 documented.add(arg)
             attrobj: Optional[model.Documentable] = obj.contents.get(arg)
+            if attrobj is not None and not isinstance(attrobj, model.Attribute):
+                # The name designates a sub-module, a class or a function: it keeps its own 
+                # documentation and kind, the field can't turn it into a variable.
+                obj.report('"%s" is not a variable, @%s field ignored' % (arg, tag),
+                           'docstring', field.lineno)
+                continue
             if attrobj is None:
                 attrobj = obj.system.Attribute(obj.system, arg, obj)
                 attrobj.kind = None
